@@ -181,6 +181,40 @@ Theorem C14_chained_flags : forall ks v l,
 Proof. exact chained_flags. Qed.
 Print Assumptions C14_chained_flags.
 
+(* code variant of model.py:_transform_back (deprecated path).  Proxy = repaired (the original reads the new
+   VARIABLE), RawNode = as found (it reads the value node the new variable had at that moment, which is
+   orphaned when the new variable is transformed again).  The repaired variant is the chain_up of the
+   theorems above; the variants coincide unless a variable created by the deprecated method is transformed
+   again; the as-found variant is refuted. *)
+Theorem C14_chain_up_proxy :
+  forall (P A : Type) (D : P -> dist_inst) (ls : list (@link A)) newest p0 args0 v0 p args t,
+  List.length args0 = List.length args ->
+  chain_up_v D Proxy newest ls p0 args0 v0 p args t = chain_up D ls p args t.
+Proof. exact @chain_up_proxy. Qed.
+Print Assumptions C14_chain_up_proxy.
+
+Theorem C14_variants_agree_unless_rechained :
+  forall (P A : Type) (D : P -> dist_inst) (l : @link A) (older : list (@link A)) p0 args0 v0 p args t,
+  List.length args0 = List.length args ->
+  List.Forall (fun l => l_path l = PVar) older ->
+  chain_up_v D RawNode true (l :: older) p0 args0 v0 p args t = chain_up D (l :: older) p args t.
+Proof. exact @variants_agree_unless_rechained. Qed.
+Print Assumptions C14_variants_agree_unless_rechained.
+
+(* defect F-C14-dep-chain (repaired by /repo commit b548a17): Gamma(2, 1), value 3, GraphBuilder.transform with
+   Exp() and then with Scale(2): after assigning the newest variable 1/4 the original stays at 3 <> exp(1/2) *)
+Theorem C14_dep_chain_rawnode_refuted :
+  exists (ls : list (@link unit)) p args v0 t bs vals,
+    chain_resolve dGamma ls p args = Some bs
+    /\ lawful_list bs all_R pos_R
+    /\ pos_R v0
+    /\ chain_up_v dGamma RawNode true ls p args v0 p args t = Some vals
+    /\ last vals t = v0
+    /\ last vals t <> fwd (compose bs) t
+    /\ chain_up_v dGamma Proxy true ls p args v0 p args t = Some (images bs t).
+Proof. exact dep_chain_rawnode_refuted. Qed.
+Print Assumptions C14_dep_chain_rawnode_refuted.
+
 (* the hypotheses are satisfiable *)
 Example C14_ex_change_of_variables :
   exists d, is_derive (fwd bRecipSoftplus) (1 / 2) d /\ d <> 0
